@@ -705,17 +705,31 @@ func genChunk(t *rapid.T) []Op {
 	blk := func() Op {
 		return Op{Op: "blk", Sh: sh, V: rapid.IntRange(0, 2).Draw(t, "cbv"), Kind: rapid.SampledFrom([]string{"full", "full", "blinded"}).Draw(t, "cbk")}
 	}
-	switch rapid.SampledFrom([]string{"one", "one", "one", "one", "one", "one", "adv-att", "adv-att", "adv-blk", "restart-sign", "readd-sign", "react-sign", "lose-sign"}).Draw(t, "chunk") {
+	// after a lifecycle event: sign at once (the boundary where an off-by-one in the bump shows), after a
+	// few slots, or after whole epochs
+	after := func(ops ...Op) []Op {
+		switch rapid.SampledFrom([]string{"now", "now", "slots", "epochs", "epochs"}).Draw(t, "after") {
+		case "slots":
+			ops = append(ops, slots())
+		case "epochs":
+			ops = append(ops, epochs())
+		}
+		a, b := att(), blk()
+		a.DT = rapid.SampledFrom([]uint64{0, 0, 0, 1}).Draw(t, "adt")
+		b.DT = rapid.SampledFrom([]uint64{0, 0, 0, 1}).Draw(t, "bdt")
+		return append(ops, a, b)
+	}
+	switch rapid.SampledFrom([]string{"one", "one", "one", "one", "one", "one", "adv-att", "adv-att", "adv-blk", "restart-sign", "readd-sign", "readd-sign", "react-sign", "lose-sign"}).Draw(t, "chunk") {
 	case "adv-att":
 		return []Op{epochs(), att()}
 	case "adv-blk":
 		return []Op{slots(), blk()}
 	case "restart-sign":
-		return []Op{{Op: "restart"}, epochs(), att(), blk()}
+		return after(Op{Op: "restart"})
 	case "readd-sign":
-		return []Op{{Op: "remove", Sh: sh}, {Op: "add", Sh: sh}, epochs(), att(), blk()}
+		return after(Op{Op: "remove", Sh: sh}, Op{Op: "add", Sh: sh})
 	case "react-sign":
-		return []Op{{Op: "react", Sh: sh}, epochs(), att(), blk()}
+		return after(Op{Op: "react", Sh: sh})
 	case "lose-sign":
 		kind := rapid.SampledFrom([]string{"att", "prop", "both", "unreadable-att", "unreadable-prop"}).Draw(t, "lk")
 		return []Op{epochs(), {Op: "lose", Sh: sh, Kind: kind}, att(), blk()}
